@@ -1,8 +1,112 @@
-"""C14 Sorted searches and PREVIOUS/NEXT/RANK agree with a linear scan — deductive (tier P)."""
-import os, sys
+"""C14 Sorted searches and PREVIOUS/NEXT/RANK agree with a linear scan — deductive (tier P) on
+records.FindOps.* and on the sort key it relies on, plus a bounded twin through real formulas."""
+import functools, itertools, os, sys
+from numbers import Number
 sys.path.insert(0, os.path.dirname(os.path.dirname(os.path.abspath(__file__))))
 from vlib import common
 from vlib.pysym import runner
+
+OPS = ["lt", "le", "gt", "ge", "eq"]
+POOLS = {
+  "Int": ([1, 2, 2, 3, None, 5], [0, 1, 2, 2.5, 3, 6, None, "a", True]),
+  "Numeric": ([1.5, 2.0, 2.0, -1.0, None], [1.5, 2, 1.75, -2, None, "x"]),
+  "Text": (["a", "b", "b", "", None], ["a", "aa", "b", "", "c", None, 1]),
+  "Any": ([1, "a", None, 2.5, "b", 1], [1, 2, "a", "ab", None, 2.5, 0]),
+}
+
+
+def _cases(tier, seed):
+  n_rows = (3,) if tier == "quick" else (3, 4)
+  for typ, (keys, probes) in POOLS.items():
+    for n in n_rows:
+      seen = set()
+      k = 0
+      for combo in itertools.product(keys, repeat=n):
+        if tuple(sorted(map(repr, combo))) in seen and tier == "quick": continue
+        seen.add(tuple(sorted(map(repr, combo))))
+        k += 1
+        for oi, order in enumerate(("k", "-k")):
+          if tier == "quick" and (k + oi) % 2: continue      # quick: every multiset, one order each
+          yield dict(type=typ, keys=list(combo), order=order, probes=probes)
+
+
+def _cmp_values(a, b):
+  """The documented comparison: Python's `<`, falling back (when types do not compare) on
+  None < numbers < other types by type name."""
+  try:
+    if a < b: return -1
+    if b < a: return 1
+    return 0
+  except TypeError:
+    def cls(v): return (0 if v is None else 1, 0 if isinstance(v, Number) else 1, type(v).__name__)
+    ca, cb = cls(a), cls(b)
+    return -1 if ca < cb else (1 if cb < ca else 0)
+
+
+def _call(a):
+  from vlib.rtc import eng
+  e = eng.new_engine()
+  cols = [{"id": "g", "type": "Text", "isFormula": False, "formula": ""},
+          {"id": "k", "type": a["type"], "isFormula": False, "formula": ""}]
+  order = a["order"]
+  for name, f in (("prev", "PREVIOUS(rec, group_by='g', order_by=%r).id" % order),
+                  ("next", "NEXT(rec, group_by='g', order_by=%r).id" % order),
+                  ("rank", "RANK(rec, group_by='g', order_by=%r)" % order),
+                  ("rankd", "RANK(rec, group_by='g', order_by=%r, order='desc')" % order)):
+    cols.append({"id": name, "type": "Any", "isFormula": True, "formula": f})
+  pcols = [{"id": "probe", "type": "Any", "isFormula": False, "formula": ""}]
+  for op in OPS:
+    pcols.append({"id": op, "type": "Any", "isFormula": True, "formula":
+                  "T.lookupRecords(g='x', order_by=%r).find.%s($probe).id" % (order, op)})
+  eng.apply(e, [["AddTable", "T", cols], ["AddTable", "P", pcols]])
+  n = len(a["keys"])
+  eng.apply(e, [["BulkAddRecord", "T", [None] * (n + 1), {"g": ["x"] * n + ["other"], "k": a["keys"] + [a["keys"][0]]}],
+                ["BulkAddRecord", "P", [None] * len(a["probes"]), {"probe": a["probes"]}]])
+  t = e.fetch_table("T"); p = e.fetch_table("P")
+  return dict(T={c: list(v) for c, v in t.columns.items()}, T_ids=list(t.row_ids),
+              P={c: list(v) for c, v in p.columns.items()})
+
+
+def _ordered(a, r):
+  sign = -1 if a["order"].startswith("-") else 1
+  rows = [(rid, ms, k) for rid, ms, k, g in zip(r["T_ids"], r["T"]["manualSort"], r["T"]["k"], r["T"]["g"])
+          if g == "x"]
+  def cmp_rows(x, y):
+    c = sign * _cmp_values(x[2], y[2])
+    if c: return c
+    return -1 if (x[1], x[0]) < (y[1], y[0]) else 1
+  return sorted(rows, key=functools.cmp_to_key(cmp_rows)), sign
+
+
+def e_find(a, r):
+  ordered, sign = _ordered(a, r)
+  for i, v in enumerate(r["P"]["probe"]):
+    before = [x[0] for x in ordered if sign * _cmp_values(x[2], v) < 0]
+    equal = [x[0] for x in ordered if _cmp_values(x[2], v) == 0]
+    after = [x[0] for x in ordered if sign * _cmp_values(x[2], v) > 0]
+    want = {"lt": before[-1] if before else 0, "le": (before + equal)[-1] if before or equal else 0,
+            "gt": after[0] if after else 0, "ge": (equal + after)[0] if equal or after else 0,
+            "eq": equal[0] if equal else 0}
+    for op in OPS:
+      got = r["P"][op][i]
+      if got != want[op]:
+        return "find.%s(%r) over %s keys %r order %r gave row %r, linear scan gives %r" % (
+          op, v, a["type"], [x[2] for x in ordered], a["order"], got, want[op])
+  return True
+
+
+def e_prevnext(a, r):
+  ordered, _ = _ordered(a, r)
+  ids = [x[0] for x in ordered]
+  for pos, rid in enumerate(ids):
+    i = r["T_ids"].index(rid)
+    want = dict(prev=ids[pos - 1] if pos > 0 else 0, next=ids[pos + 1] if pos + 1 < len(ids) else 0,
+                rank=pos + 1, rankd=len(ids) - pos)
+    for c, w in want.items():
+      if r["T"][c][i] != w:
+        return "%s of row %d in ordered group %r gave %r, expected %r" % (c, rid, ids, r["T"][c][i], w)
+  return True
+
 
 def main():
   common.setup_grist_path()
@@ -10,19 +114,31 @@ def main():
   rep.assumptions += [
     "the record set is sorted strictly by its sort key (what sorted(ids, key=SortKey) yields); row "
     "ids are positive ints below 10**300 (so the +-float-max probes bound them)",
-    "SortKey.__lt__ obeys its contract (values compared by a strict weak order vlt, ties broken "
-    "by row id) - the statement's hypothesis of mutually comparable sort values; that contract is "
-    "the C13 lemma and is ASSUMED here",
+    "SortKey obeys its contract - values kept as given / the row's own cell values, compared by "
+    "the signed lexicographic order with the row id as last resort; that contract is itself "
+    "PROVED here from the real source of sort_key.SortKey.__init__/__lt__ for sort specs of up to "
+    "3 columns (contracts/C13_sort.py); the element-wise `<` being a strict weak order is the "
+    "statement's hypothesis of mutually comparable sort values",
     "bisect_left/bisect_right return the partition point of a sorted list (assumed contract; its "
     "sortedness precondition is itself an obligation: *.pre.bisect_sorted)",
     "table.Record(row_id, relation) builds a record with that row id (assumed)",
-    "prevnext.PREVIOUS/NEXT/RANK are one-line wrappers (lookup_records + _find.previous/next/rank);"
-    " the lookup they call is C13's subject and not re-verified here",
+    "prevnext.PREVIOUS/NEXT/RANK and lookup_records are covered by the bounded twin only",
     "int is mathematical (exact for Python int)",
+    common.SHIM_ASSUMPTION + " (bounded twin only)",
   ]
-  rep.coverage["rule"] = "one obligation per (method, clause, path)"
+  rep.coverage["rule"] = ("proof: one obligation per (method, clause, path). bounded twin: real "
+                          "formulas (lookupRecords(order_by).find.*, PREVIOUS/NEXT/RANK) on a real "
+                          "engine for every multiset of 3 (quick) / 4 (thorough) keys from a pool "
+                          "per column type (Int, Numeric, Text, Any), ascending and descending, "
+                          "and every probe of the pool (incl. probes of another type); "
+                          "non-trivial = distinct (type, keys, order)")
   runner.run_property(rep, "contracts.C14_records", bounded=False)
-  # the proof level needs no exploration keys; state explicitly that none were run here
+  runner.run_property(rep, "contracts.C13_sort", bounded=False, only=["C13.sortkey_"])
+  from vlib.rtc import fn
+  c = fn.FnContract("lookupRecords(order_by=..).find.* / PREVIOUS / NEXT / RANK (via real formulas)",
+                    _call, ensures={"C14.find_agrees_with_linear_scan-bounded": e_find,
+                                    "C14.prev_next_rank_by_position-bounded": e_prevnext})
+  fn.check(rep, c, _cases, exhaustive=(common.tier() != 'quick'), warm_engine=True)
   return rep.finish()
 
 if __name__ == "__main__":
